@@ -100,9 +100,12 @@ _log_format_variables = {
     'asctime': 'atime',
     'msecs': 1.1,
     'relativeCreated': 1.1,
-    'thread': 1,
+    # thread identifiers are pointer-sized on most platforms and process
+    # ids can exceed the range of %c: small samples would let conversions
+    # through that fail on real records (%(thread)c)
+    'thread': 140735340871680,
     'message': 'amessage',
-    'process': 1,
+    'process': 4194303,
     'funcName': 'fname',
 }
 
